@@ -459,7 +459,7 @@ pub fn run(tier: &str, seed: u64) -> i32 {
     let f = DFamily {
         max_members: 2,
         max_fields: 1,
-        alphabet: FAM_ALPHABET.to_vec(),
+        alphabet: FAM_ALPHABET.iter().cloned().chain([FamTy::Tup0, FamTy::Tup2, FamTy::Tup3]).collect(),
         forms: vec![MemberForm::NamedStruct],
         leads: vec![0, 1],
         with_neighbours: false,
